@@ -178,6 +178,47 @@ fn stress_replace() -> Value {
       }
     }
   }
+  // clones taken while other threads read an ALREADY SORTED source: a clone must behave like the original
+  {
+    use std::hash::{Hash, Hasher};
+    struct Nop;
+    impl Hasher for Nop {
+      fn finish(&self) -> u64 {
+        0
+      }
+      fn write(&mut self, _: &[u8]) {}
+    }
+    let n = 40_000usize;
+    let text: String = std::iter::repeat('a').take(n).collect();
+    let mut r = ReplaceSource::new(OriginalSource::new(text, "a.js"));
+    for i in (0..n).rev() {
+      r.insert(i as u32, "b", None);
+    }
+    let expect = r.source().len(); // sorts
+    let r = Arc::new(r);
+    let stop = Arc::new(std::sync::atomic::AtomicBool::new(false));
+    let readers: Vec<_> = (0..2)
+      .map(|_| {
+        let r = r.clone();
+        let stop = stop.clone();
+        std::thread::spawn(move || {
+          while !stop.load(std::sync::atomic::Ordering::SeqCst) {
+            r.hash(&mut Nop);
+          }
+        })
+      })
+      .collect();
+    for _ in 0..60 {
+      let c = ReplaceSource::clone(&r);
+      if c.source().len() != expect {
+        mismatches += 1;
+      }
+    }
+    stop.store(true, std::sync::atomic::Ordering::SeqCst);
+    for h in readers {
+      let _ = h.join();
+    }
+  }
   json!({"rounds": 6, "mismatches": mismatches})
 }
 
